@@ -12,16 +12,35 @@ class C11(Prop):
     title = "Subscriber and PLMN identities are encoded per TS 24.501 / TS 38.413"
     lean_module = "Stgutg.Props.C11"
     gen = []
-    theorems = []
+    theorems = [
+        "Stgutg.Props.C11.C11_suci",
+        "Stgutg.Props.C11.C11_suci_is_spec_encoding",
+        "Stgutg.Props.C11.C11_plmn_ngsetup",
+        "Stgutg.Props.C11.C11_plmn_agrees",
+        "Stgutg.Props.C11.C11_uli_same_plmn",
+        "Stgutg.Props.C11.C11_plmn_decodes",
+        "Stgutg.Props.C11.C11_ngap_literal_mnc2",
+        "Stgutg.Props.C11.C11_ngap_literal_mnc3",
+        "Stgutg.Props.C11.C11_ngap_literal_differs_310_410",
+    ]
     # suci: sampled + boundary digits (quick) ; suci-mcc0..9: the exhaustive 1000 x 1100 MCC/MNC sweep, thorough tier only
-    domains = [Domain("suci", 600, 4000)] + [Domain("suci-mcc%d" % d, 0, 1) for d in range(10)]
-    rule = ("suci: EncodeSuci (op suci), the NG Setup PLMN expression + the real NGAP builders (op ngplmn), the real ManageNGSetup "
+    domains = [Domain("suci", 6000, 200000)] + [Domain("suci-mcc%d" % d, 0, 1) for d in range(10)]
+    rule = ("suci: EncodeSuci (op suci), the identity IE cut out of the real REGISTRATION / DEREGISTRATION REQUEST octets (op nassuci, "
+            "1 in 4 cases in quick, all in thorough), the NG Setup PLMN expression + the real NGAP builders (op ngplmn), the real ManageNGSetup "
             "over a socketpair (op ngsetup) and nasConvert.PlmnIDToNas (op plmn2nas) on every boundary digit {0,1,5,8,9} in every "
             "MCC/MNC position, all ten digits per position, both MNC lengths, MSIN lengths 1..10 (random digits), random IMSIs, and a "
             "malformed stream (short IMSIs, hex letters, arbitrary bytes, odd mncLen); thorough tier adds suci-mcc0..9 = all 1000 MCC x "
             "1100 MNC (2- and 3-digit), MSIN length cycling 1..10; non-trivial = the call returned an encoding; distinct by op line")
-    trusted_base = []
-    assumptions = []
+    trusted_base = [
+        'Model/Suci.lean (EncodeSuci, hexCharToByte, the ngsetup.go PLMN expression, TestPlmn copies of BuildNGSetupRequest / user-location builders) and Model/Convert.lean plmnIDToNas are hand models tied by the suci domain (impl = model on every case, panics included)',
+        'Spec/Ts24501Identity.lean is my transcription of TS 24.501 figure 9.11.3.4.3 / table 9.11.3.4.1 (SUCI, SUPI format IMSI, null scheme) and of the 3-octet PLMN layout of TS 24.501 / TS 24.008 10.5.1.3; the decoder is independent of the encoder (theorem C11_suci uses only the decoder)',
+        'op ngsetup drives the real stgutg.ManageNGSetup over an AF_UNIX SOCK_SEQPACKET socketpair wrapped by sctp.NewSCTPConn and echoes the request as the answer',
+    ]
+    assumptions = [
+        'IMSI = 3-digit MCC + 2- or 3-digit MNC + MSIN of at least one digit, all decimal (theorems hold for any MSIN length, not only 1..10); mncLen passed to EncodeSuci is len(mnc)',
+        "the property text names ONE layout 'TS 38.413/TS 24.501 PLMN encoding' and requires agreement with PlmnIDToNas: Spec.plmn3 is the TS 24.501/24.008 layout (octet2 = MNC3|MCC3, octet3 = MNC2|MNC1). TS 38.413 9.3.3.5 READ LITERALLY orders the digits MCC1 MCC2 MCC3 MNC1 MNC2 MNC3 (octet2 = MNC1|MCC3, octet3 = MNC3|MNC2), which is what free5gc ngapConvert.PlmnIdToNgap, open5gs ogs_plmn_id_t, OAI and the Wireshark NGAP dissector implement; the two coincide for every 2-digit MNC (C11_ngap_literal_mnc2) and differ for every 3-digit MNC whose digits are not all equal (C11_ngap_literal_mnc3, 310/410: 13 00 14 vs 13 40 01). After the F5 repair the NG Setup PLMN of a 3-digit-MNC network follows the 24.501 layout, as the property demands; an AMF that decodes NGAP PLMNs in the literal 38.413 order reads a different MNC there.",
+    ]
+    partial_note = ("no theorem is partial. Caveat (not a gap in the proof but in the property's premise): for 3-digit MNCs TS 38.413 9.3.3.5 read literally differs from the TS 24.501 layout the property equates it with; see assumptions and theorems C11_ngap_literal_*.")
 
     def key(self, op, impl, model, spec):
         t = op.split(" ")
